@@ -73,9 +73,10 @@ type c20Params struct {
 	lagN      int    // >0: the signed root is republished only on every (lagN+1)-th request (1000: never during the scenario)
 	errPct    int
 	shortPct  int
-	emptyPct  int // share of get-entries answers that are `{"entries":[]}` (at most two in a row per request)
-	quotaPct  int // share of AddSequencedLeaves answers that are ResourceExhausted (runs of up to 3)
-	fatalAt   int // the n-th AddSequencedLeaves call fails with a non-quota error (0 = never)
+	addDelay  time.Duration // extra (virtual) time every AddSequencedLeaves takes: the fetcher is long done when the last submitter answers
+	emptyPct  int           // share of get-entries answers that are `{"entries":[]}` (at most two in a row per request)
+	quotaPct  int           // share of AddSequencedLeaves answers that are ResourceExhausted (runs of up to 3)
+	fatalAt   int           // the n-th AddSequencedLeaves call fails with a non-quota error (0 = never)
 	cancelAt  time.Duration
 	stopAfter time.Duration
 	lossAt    []time.Duration // mastership lost at these instants (mode "master")
@@ -436,7 +437,7 @@ func (w *c20World) addLeaves(req *trillian.AddSequencedLeavesRequest) (*trillian
 	w.mu.Unlock()
 
 	h := c20Hash(w.p.fseed, 0xadd, uint64(start)<<20^uint64(k), uint64(nCall))
-	time.Sleep(c20Latencies[h%uint64(len(c20Latencies))])
+	time.Sleep(c20Latencies[h%uint64(len(c20Latencies))] + w.p.addDelay)
 
 	w.mu.Lock()
 	defer w.mu.Unlock()
@@ -855,6 +856,10 @@ func c20Gen(r *verifkit.Rand, it int) *c20Params {
 	}
 	if r.Intn(8) == 0 {
 		p.fatalAt = 1 + r.Intn(4)
+		if r.Bool() {
+			p.addDelay = time.Duration(5+r.Intn(30)) * time.Second
+			p.chanSize = 10
+		}
 	}
 	if r.Intn(8) == 0 {
 		p.cancelAt = time.Duration(1+r.Intn(5000)) * time.Millisecond
@@ -905,6 +910,9 @@ func TestVerifC20(t *testing.T) {
 		{id: "f1", mode: "run", proofMode: "ok", cfgStart: -1, size0: 57, batch: 10, fetchers: 2, submit: 2, idFunc: cd, seed: 2, shortPct: 30},
 		{id: "u1", unique: true, mode: "run", proofMode: "ok", cfgStart: -1, size0: 57, batch: 10, fetchers: 2, submit: 2, idFunc: cd, seed: 2, shortPct: 30},
 		{id: "e0", mode: "run", proofMode: "ok", cfgStart: -1, size0: 6, batch: 2, fetchers: 1, submit: 1, idFunc: li, seed: 15, emptyPct: 100},
+		// a submitter fails long after the fetcher has finished: the pass must still report the failure
+		{id: "w0", mode: "run", proofMode: "ok", cfgStart: -1, size0: 8, batch: 4, fetchers: 1, submit: 1, chanSize: 10, idFunc: li, seed: 16, fatalAt: 2, addDelay: 20 * time.Second},
+		{id: "w1", mode: "run", proofMode: "ok", cfgStart: -1, size0: 40, batch: 5, fetchers: 3, submit: 2, chanSize: 10, idFunc: li, seed: 17, fatalAt: 7, addDelay: 30 * time.Second},
 		{id: "f2", mode: "run", proofMode: "ok", cfgStart: -1, size0: 57, dest0: 20, batch: 7, fetchers: 3, submit: 2, idFunc: li, seed: 3, shortPct: 100, errPct: 10},
 		{id: "f3", mode: "run", proofMode: "ok", cfgStart: -1, size0: 57, dest0: 57, batch: 7, fetchers: 1, submit: 1, idFunc: li, seed: 4},
 		{id: "f4", unique: true, mode: "run", proofMode: "ok", cfgStart: -1, size0: 40, dest0: 10, fork: true, batch: 7, fetchers: 1, submit: 1, idFunc: cd, seed: 5},
